@@ -173,10 +173,16 @@ Section ProofModel.
       end
     end.
 
-  Fixpoint init_result (qs : list Hsh) (idxs : list N) (acc : list (N * Hsh)) : list (N * Hsh) :=
+  (* initial result map; None = two different claims for the same index (rejected by the repaired code) *)
+  Fixpoint init_result (qs : list Hsh) (idxs : list N) (acc : list (N * Hsh)) : option (list (N * Hsh)) :=
     match qs, idxs with
-    | q :: qs', i :: idxs' => init_result qs' idxs' (if i =? 0 then acc else (i, q) :: acc)
-    | _, _ => acc
+    | q :: qs', i :: idxs' =>
+      if i =? 0 then init_result qs' idxs' acc
+      else match lookup acc i with
+           | Some e => if heqb e q then init_result qs' idxs' ((i, q) :: acc) else None
+           | None => init_result qs' idxs' ((i, q) :: acc)
+           end
+    | _, _ => Some acc
     end.
 
   Definition calc_path_nodes (qs : list Hsh) (size : N) (idxs : list N) (sibs : list Hsh)
@@ -184,8 +190,12 @@ Section ProofModel.
     if negb (Nat.eqb (length qs) (length idxs)) then Err
     else if Nat.eqb (length qs) 0 then Err
     else
-      let sorted := sort_idx (filter (fun i => negb (i =? 0)) idxs) in
-      cpn (loop_fuel (length idxs) (get_height size)) size (get_height size) sorted (init_result qs idxs []) [] sibs.
+      match init_result qs idxs [] with
+      | None => Err
+      | Some res0 =>
+        let sorted := sort_idx (filter (fun i => negb (i =? 0)) idxs) in
+        cpn (loop_fuel (length idxs) (get_height size)) size (get_height size) sorted res0 [] sibs
+      end.
 
   Definition root_of (r : outcome (list (N * Hsh))) : outcome Hsh :=
     match r with
